@@ -258,6 +258,15 @@ fn apply(st: &mut St, op: &J) -> Result<Map<String, J>, csl::JsError> {
             res.insert("attach".into(), J::Array(attach));
         }
         "AddOutput" => { st.tb.add_output(&output_of(op)?)?; }
+        "AddOutputRaw" => {
+            let o = csl::TransactionOutput::from_bytes(get_bytes(&op["bytes"])).map_err(|e| csl::JsError::from_str(&format!("{:?}", e)))?;
+            let mut v = o.amount(); v.set_coin(&v.coin().checked_add(&bn_of(&op["plus_n"]))?);
+            let mut o2 = csl::TransactionOutput::new(&o.address(), &v);
+            if let Some(d) = o.plutus_data() { o2.set_plutus_data(&d); }
+            if let Some(d) = o.data_hash() { o2.set_data_hash(&d); }
+            if let Some(r) = o.script_ref() { o2.set_script_ref(&r); }
+            st.tb.add_output(&o2)?;
+        }
         "SetCerts" => {
             let mut cb = csl::CertificatesBuilder::new();
             let mut signers = vec![];
@@ -457,9 +466,44 @@ fn gen_minada(rng: &mut Rng) -> J {
     json!({"minada": calls})
 }
 
+/// A scenario may ask for a second pass that sits exactly on a boundary the first pass located ("rerun"):
+///   "fixed_fee": permille  - the same operations, but the outputs of the first transaction are added verbatim (the last one richer
+///                            by delta) and the fee is FIXED by the caller at first fee - delta, somewhere above the linear part;
+///   "max_tx": k            - the same scenario with max_tx_size = signed size of the first transaction - 1 - k.
+/// Both passes are ordinary histories in the same vocabulary (a second Reset starts the second one).
 pub fn run_one(out: &mut Out, sc: usize, s: &J) {
     if s.get("minada").is_some() { return run_minada(out, sc, s); }
-    let cfg = match call(|| config(&s["pp"])) { Outcome::Ok(c) => c, _ => { out.ev(json!({"ev": "SetupErr", "sc": sc})); return; } };
+    let first = run_pass(out, sc, s);
+    let (tx, signed_len) = match (first, s.get("rerun")) { (Some(x), Some(_)) => x, _ => return };
+    let rr = &s["rerun"];
+    let mut s2 = s.clone();
+    s2.as_object_mut().unwrap().remove("rerun");
+    if let Some(k) = rr.get("max_tx").and_then(|x| x.as_u64()) {
+        s2["pp"]["maxtx"] = json!((signed_len as u64).saturating_sub(1 + k).max(1));
+        run_pass(out, sc, &s2);
+    } else if let Some(pm) = rr.get("fixed_fee").and_then(|x| x.as_u64()) {
+        let body = tx.body();
+        let fee: u64 = body.fee().into();
+        let linear = s["pp"]["a"].as_u64().unwrap_or(44) * signed_len as u64 + s["pp"]["b"].as_u64().unwrap_or(155381);
+        if fee <= linear + 1 { return; }
+        let delta = 1 + (fee - linear - 1) * pm / 1000;
+        let outs = body.outputs();
+        if outs.len() == 0 { return; }
+        let mut ops: Vec<J> = s["ops"].as_array().unwrap().iter().filter(|o| !matches!(o["op"].as_str().unwrap_or(""),
+            "AddOutput" | "AddChange" | "AddInputsFromAndChange" | "AddInputsFromAndChangeWithCollateralReturn" | "Build" | "BuildAgain" | "SetFee" | "SetMinFee")).cloned().collect();
+        for i in 0..outs.len() { ops.push(json!({"op": "AddOutputRaw", "bytes": jbytes(&outs.get(i).to_bytes()), "plus_n": jn(if i + 1 == outs.len() { delta } else { 0 })})); }
+        ops.push(json!({"op": "SetFee", "n": jn(fee - delta)}));
+        ops.push(json!({"op": "Build"}));
+        s2["ops"] = J::Array(ops);
+        run_pass(out, sc, &s2);
+    }
+}
+
+/// one history; returns the last transaction a VALIDATING build produced after a successful balancing, with its signed length
+fn run_pass(out: &mut Out, sc: usize, s: &J) -> Option<(csl::Transaction, usize)> {
+    let mut last: Option<(csl::Transaction, usize)> = None;
+    let mut balanced_ok = false;
+    let cfg = match call(|| config(&s["pp"])) { Outcome::Ok(c) => c, _ => { out.ev(json!({"ev": "SetupErr", "sc": sc})); return None; } };
     let mut st = St { tb: csl::TransactionBuilder::new(&cfg), env: BTreeMap::new(), collateral: csl::TxInputsBuilder::new(),
         vkeys: BTreeSet::new(), byrons: BTreeSet::new(), inputs_builder_signers: BTreeMap::new(),
         cert_signers: vec![], wd_signers: vec![], mint_signers: vec![], req_signers: vec![], inputs: csl::TxInputsBuilder::new(), selected: false, script_signers: vec![], vote_signers: vec![] };
@@ -513,7 +557,9 @@ pub fn run_one(out: &mut Out, sc: usize, s: &J) {
                 Outcome::Ok(tx) => {
                     let bytes = tx.to_bytes();
                     let full = call(|| tb.full_size()).to_json(|n| obj(vec![("n", J::from(n as u64))]));
-                    let signed = call(|| sign(&st, &tx)).to_json(|b| obj(vec![("bytes", jbytes(&b))]));
+                    let signed_o = call(|| sign(&st, &tx));
+                    if let (Outcome::Ok(b), false, true) = (&signed_o, unsafe_, balanced_ok) { last = Some((tx.clone(), b.len())); }
+                    let signed = signed_o.to_json(|b| obj(vec![("bytes", jbytes(&b))]));
                     json!({"ev": "Built", "sc": sc, "i": i, "again": name == "BuildAgain", "unsafe": unsafe_, "tx": jbytes(&bytes), "full_size": full, "signed": signed,
                            "fee_if_set": tb.get_fee_if_set().map(|f| jbn(&f)).unwrap_or(J::Null) })
                 }
@@ -526,12 +572,14 @@ pub fn run_one(out: &mut Out, sc: usize, s: &J) {
             continue;
         }
         let r = call(|| apply(&mut st, op)).to_json(|m| m);
+        if matches!(name, "AddChange" | "AddInputsFromAndChange" | "AddInputsFromAndChangeWithCollateralReturn") { balanced_ok = r.get("ok").is_some(); }
         // the op is logged with its arguments resolved to wire values where the validator needs them
         let mut ev = json!({"ev": "Op", "sc": sc, "i": i, "op": name, "r": r});
         for k in ["n", "pct_n", "langs"] { if let Some(v) = op.get(k) { ev[k] = v.clone(); } }
         if name == "AddInput" { if let Some(it) = ev["r"].get("item").cloned() { ev["item"] = it; } }
         out.ev(ev);
     }
+    last
 }
 
 // ------------------------------------------------------------------ seeded random scenarios
@@ -670,7 +718,9 @@ pub fn gen(rng: &mut Rng) -> J {
     ops.extend(col_after);
     ops.push(json!({"op": "Build"}));
     if rng.chance(1, 4) { ops.push(json!({"op": "BuildAgain"})); }
-    json!({"pp": pp, "utxo": utxo, "ops": ops})
+    let mut scn = json!({"pp": pp, "utxo": utxo, "ops": ops});
+    match rng.below(12) { 0 => { scn["rerun"] = json!({"max_tx": rng.below(3)}); } 1 => { scn["rerun"] = json!({"fixed_fee": rng.below(1001)}); } _ => {} }
+    scn
 }
 
 /// Plutus / native-script scenarios: script-locked inputs, Plutus mints, script certificates / withdrawals / votes, reference
@@ -801,7 +851,9 @@ pub fn gen_plutus(rng: &mut Rng) -> J {
     if rng.chance(1, 3) { ops.push(json!({"op": "BuildAgain"})); }
     let pp = json!({"a": 44, "b": 155381, "cpb": 4310, "maxval": 5000, "maxtx": *rng.pick(&[16384u64, 16384, 16384, 3000, 2000, 1400, 1000]), "kd_n": jn(2_000_000), "pd_n": jn(500_000_000),
                     "ex": [577, 10000, 721, 10000000], "ref": [*rng.pick(&[15u64, 15, 0, 44]), 1], "dedup": spent_holds_script});
-    json!({"pp": pp, "utxo": utxo, "ops": ops})
+    let mut scn = json!({"pp": pp, "utxo": utxo, "ops": ops});
+    match rng.below(8) { 0 => { scn["rerun"] = json!({"max_tx": rng.below(3)}); } 1 | 2 => { scn["rerun"] = json!({"fixed_fee": rng.below(1001)}); } _ => {} }
+    scn
 }
 
 pub fn main(a: &Args) {
